@@ -135,6 +135,10 @@ func readResponseBounded(r io.Reader, limit int64) ([]byte, error) {
 		return nil, err
 	}
 
+	if msgSize < 0 {
+		return nil, fmt.Errorf("response body size (%d) is invalid", msgSize)
+	}
+
 	if int64(msgSize) > limit {
 		return nil, fmt.Errorf("response body size (%d) is greater than limit (%d)",
 			msgSize, limit)
